@@ -15,9 +15,14 @@ RULE = ('tables of 0..N rows for Interval, Bed6, Bed12, BedGraph, NarrowPeak, SA
         'history of sessions x write calls x stream chunks that partitions the rows (all compositions for small n, empty '
         'pieces included) x {plain, gzip}; observed: file bytes (decompressed) and bnp.open(path).read(). '
         'non-trivial = at least 2 rows differing in the width of some cell (or a multi-line FASTA record) written in at '
-        'least 2 pieces, or an integer cell next to a power of ten / int64 bound')
+        'least 2 pieces, or an integer cell next to a power of ten / int64 bound. Float columns also hold 0.0 and -0.0 together '
+        '(equal values, different text) in mixed order under every split; "reread" tables are READ lazily from a canonical file, '
+        'then sliced / masked / re-ordered and np.concatenate\'d (calls with concat=true write the concatenation in one write) '
+        'before being written; identifier columns empty in every row; int columns also held as int8/16/32/64 and uint8/16/32/64 '
+        'arrays and float columns as float32, with values at both limits of the dtype, 0 and -1 (case field dtypes); SAM cases with a '
+        'tag-less row also read the old trailing-TAB spelling; after the writes the table handed to write() must be unchanged')
 EXHAUSTIVE = {'quick': False, 'thorough': False}
-TIE = ('translator+correspondence: 38 definitions regenerated from /repo (translate/gen_c03.py -> Gen/C03.v) bridged to the named '
+TIE = ('translator+correspondence: 44 definitions regenerated from /repo (translate/gen_c03.py -> Gen/C03.v) bridged to the named '
        'helpers of Model/C03.v (Bridge/C03.v, theorem C03_source_tie); Model.C03.run_hist evaluated in Coq on the same history, '
        'reference reader on the written bytes')
 ASSUMPTIONS = [
@@ -25,6 +30,9 @@ ASSUMPTIONS = [
     'cover float tables for ANY printer/reader pair with the stated round-trip hypothesis (reader inverts printer, no TAB/LF in the '
     'text); that str(float)/str_to_float satisfy it to printing precision is checked per case: the generator supplies the text and '
     'the exact value, spec_ok compares the value read back with the exact value to 1e-12 relative',
+    'A-DTYPE: a cell FI n denotes the mathematical value whatever integer dtype holds it (uint64 values stay within the int64 range the '
+    'reader returns; a VCF POS column stays below its dtype maximum because the file holds POS+1); a float32 cell carries the text '
+    'str(np.float32(v)) and, as its value, the value of that text',
     'A-GZIP: gzip is transparent (the decompressed concatenation of members is compared)',
     'A-READER: the reader is the reference reader Model.C03.parse_file (tied to bnp.open(path).read() by model_ok on every case); '
     'the library reader itself is properties C01/C02',
